@@ -9,7 +9,10 @@ from .geom import Geo, frac
 
 
 class Ledger:
-    def __init__(self, labware_specs):
+    def __init__(self, labware_specs, exact_grid=False):
+        # exact_grid: the run's volumes all live on the quarter grid, so float sums are exact and "exactly on
+        # the limit" is certain; elsewhere an intermediate float rounding can tip the library's decision
+        self.exact_grid = exact_grid
         self.geos = [Geo(s) for s in labware_specs]
         self.vol = []
         self.comp = []  # per labware: real well -> {component: Fraction fraction}
@@ -52,7 +55,7 @@ class Ledger:
             new = cur + v
             lim = frac(g.vmax)
             over = new - lim
-        if over == 0 and (band == 0 or (cur.denominator <= 4 and v.denominator <= 4)):
+        if over == 0 and (band == 0 or (self.exact_grid and cur.denominator <= 4 and v.denominator <= 4)):
             # exactly on the limit, reached by binary-exact arithmetic: accepted without doubt
             return "ok"
         if abs(over) <= band:
